@@ -447,6 +447,8 @@ class Gen:
                 m4 = self.load(doc2, mslot=m2, form="json")
                 self.predict(m4, d_l, ignore=True)
                 self.store(m4)
+            # a second stored model of the family (another meter) restored next to this one; both are used in turn
+            self._second_restored(m2, base0)
         elif mode == "C02":
             # spans of growing length over the same weeks: one day, the month around it, then whatever was drawn
             d1 = self.make_data(self._reporting(base0, span="day", obs="present", tgap=0))
